@@ -14,6 +14,10 @@ import Proofs.GenTables
 #print axioms Xsel.C08.lexer_inverts_spelling
 #print axioms Xsel.C08.lexer_any_whitespace
 #print axioms Xsel.C08.lexer_without_whitespace
+#print axioms Xsel.C08.lexer_inverts_canonical_spelling
+#print axioms Xsel.C08.string_roundtrip_model
+#print axioms Xsel.C08.string_roundtrip_spec
+#print axioms Xsel.C08.sampleTree_spelling
 #print axioms Xsel.Gen.handlers_agree
 #print axioms Xsel.Gen.productions_agree
 #print axioms Xsel.Gen.no_dropped_symbol
